@@ -34,10 +34,11 @@ let () =
     | _ -> failwith "c18-emit: bad case")
 
 let () =
-  (* (zod mapping ((name (field-rty ...)) ...) (site-rty ...) (observed-name ...)) -> ((model-declared ...) clause-on-observed class) *)
+  (* (zod mapping ((name (field-rty ...)) ...) (site-rty ...) (observed-name ...) [(observed-name-without-table ...)])
+     -> ((model-declared ...) clause-on-observed class [frame-clause-on-the-two-observed-sets]) *)
   Registry.register "declared" (fun s ->
     match list s with
-    | [zod; m; all; sts; obs] ->
+    | zod :: m :: all :: sts :: obs :: rest ->
         let zod = (match zod with Atom "true" -> true | _ -> false) in
         let m = mapping_ m in
         let all = List.map (fun d -> match list d with
@@ -45,5 +46,8 @@ let () =
                                      | _ -> failwith "c18-declared: bad struct") (list all) in
         let sts = List.map rty_ (list sts) in
         let obs = List.map str_ (list obs) in
-        List [List (List.map of_str (M.c18_declared zod m all sts)); of_bool (M.c18_decl_oracle m obs); of_bool (M.c18_decl_class m all)]
+        let frame = (match rest with
+                     | [wo] -> [of_bool (M.c18_decl_frame obs (List.map str_ (list wo)))]
+                     | _ -> []) in
+        List ([List (List.map of_str (M.c18_declared zod m all sts)); of_bool (M.c18_decl_oracle m obs); of_bool (M.c18_decl_class m all)] @ frame)
     | _ -> failwith "c18-declared: bad case")
